@@ -192,7 +192,7 @@ def dfltPlain : Option Dflt → Bool
 /-- a column is inside the proved class for settings `cfg`: its type reflects by name (when
 types are compared) and its default is plain (when defaults are compared) -/
 def colOk (cfg : Cfg) (c : Col) : Bool :=
-  (!cfg.compareType || known (ddlTy c.ty)) && (!cfg.compareDefault || dfltPlain c.dflt)
+  (!cfg.compareType || known (declTy c.ty)) && (!cfg.compareDefault || dfltPlain c.dflt)
 
 /-- names of the indexes and unique constraints of a table (one namespace in the comparison) -/
 def namedNames (t : Table) : List String := (namedOf t.uqs t.ixs).map (·.name)
